@@ -3,13 +3,24 @@ from core import Case
 
 IMPL_MODULE = "tags_impl"
 RULE = ("python_version tuples (1-3 components; 2.x, 3.0-3.40, 4.x, boundary minors 0,1,2,3,7,8,12,13) x ABI lists (0-5 items drawn from "
-        "cpXY[t][d][m][u], abi3, none, foreign names; with and without repeats, mixed case) x platform lists (1-5, with repeats, 'any'); "
+        "cpXY[t][d][m][u], abi3, none, foreign names; with and without repeats, mixed case, case variants of one name) x platform lists (0-5, with repeats, 'any', case variants; "
+        "0 = fall back to the detected platforms of a steered generic / Darwin system); python_version / abis / interpreter not given; "
         "interpreter configurations (Py_DEBUG, Py_GIL_DISABLED, WITH_PYMALLOC, Py_UNICODE_SIZE in {unset,0,1,2,4}, gettotalrefcount, _d.pyd, "
-        "maxunicode) for the default ABI; EXT_SUFFIX forms for generic interpreters; whole sys_tags() for steered interpreters; "
+        "maxunicode) for the default ABI; EXT_SUFFIX forms for generic interpreters; whole sys_tags() for steered interpreters on generic, Darwin and "
+        "Linux (glibc) systems with many detected platforms, and its decomposition law on the real objects; "
         "non-trivial = a non-empty tag sequence; distinct by input")
 ASSUMPTIONS = [
     "inputs are ASCII; Tag() lower-cases with str.lower(), modelled for ASCII only",
-    "config variables are None or ints (as CPython's sysconfig reports them); EXT_SUFFIX is a str starting with '.' or None "
+    "'no repeats in the inputs' is read on the Tag level: the ABI list and the platform list have no repeats AFTER lower-casing (Tag() lower-cases "
+    "its parts, so 'P' and 'p' are the same platform), and no explicit ABI is a differently-cased spelling of abi3/none (the code removes / looks "
+    "for the exact lower-case text): cpython_tags((3,9),['ABI3'],['p']) does repeat cp39-abi3-p (theorem C15_case_induced_repeats); judgement call, "
+    "reported to the lead, not registered as a finding",
+    "an empty platform *list* (or None) falls back to the detected platforms; an empty one-shot *iterator* is truthy and yields no tags - not generated",
+    "sys_tags() NoDup additionally needs: the interpreter tag <name><version> is not one of the py* tags (sys.implementation.name == 'python' "
+    "repeats py312-none-<plat>: theorem C15_sys_tags_python_repeats) and EXT_SUFFIX does not spell the ABI 'none' in another case",
+    "'never for free-threaded ABIs' is the code's reading: the FIRST remaining explicit ABI, raw text, any 't' after the digits "
+    "(C15_threaded_spec, C15_first_abi_only_counterexample, C15_threaded_raw_text)",
+    "the ABI config variables are None or ints (as CPython's sysconfig reports them); py_version_nodot is None, a str or an int; EXT_SUFFIX is a str starting with '.' or None "
     "(the empty string makes _generic_abi fail with IndexError: outside the generated domain, visible as GCrash in the model)",
     "NoDup theorems need: no repeated ABI / platform in the caller's lists, 'any' not a platform, interpreter not one of the py* tags "
     "(with platforms=['any'] the real code repeats py3-none-any; forced by the proof, generators for the law cases respect it)",
@@ -49,6 +60,18 @@ def enc_list(l):
     return "".join("," + x for x in l)
 
 
+SYSVERS = ["3.12", "3.7", "3.13", "2.7", "3.8", "3.2", "3.1", "3.14", "3.0", "3.3", "4.1"]
+
+
+def rand_det(rng, mac_only=False):
+    """how the detected platform list is steered: 'G<get_platform>' (one platform) | 'D<mac release>;<cpu>' (many)"""
+    if not mac_only and rng.random() < 0.5:
+        return "G" + rng.choice(["freebsd-13.2-amd64", "win-amd64", "win32", "solaris-2.11-sun4v.64bit", "generic", "aix 7.2-ppc", "Weird-OS.1"])
+    if rng.random() < 0.6: ver = "10.%d" % rng.choice([0, 3, 4, 5, 6, 7, 9])
+    else: ver = "%d.%d" % (rng.choice([11, 12, 13]), rng.choice([0, 3]))
+    return "D%s%s;%s" % (ver, rng.choice(["", "", ".1"]), rng.choice(["arm64", "arm64", "x86_64", "ppc", "i386", "riscv"]))
+
+
 def rand_cfg(rng):
     o = lambda vals: rng.choice(vals)
     return ",".join([o(["N", "N", "0", "1", "2"]), o(["N", "0", "1", "1"]), o(["N", "0", "1"]), o(["N", "N", "2", "4", "0", "8", "1"]),
@@ -81,17 +104,39 @@ def streams(rng, tier):
     for _ in range(n):
         v = rand_pv(rng)
         abis = rand_list(rng, abi_pool(rng, v), [0, 1, 1, 2, 3, 5])
-        ps = rand_list(rng, PLATS, [1, 1, 2, 3, 5])
+        ps = rand_list(rng, PLATS, [1, 1, 2, 3, 5] if q else [1, 1, 2, 3, 5, 8, 11])
         out.append(Case("cpython", "t.cpython", [v, enc_list(abis), enc_list(ps), rand_cfg(rng)]))
         interp = rng.choice(["", "", "cp" + "".join(v.split(".")[:2]), "pp3", "ip27", "py3", "py" + "".join(v.split(".")[:2]), "CP39"])
         out.append(Case("compatible", "t.compat", [v, interp, enc_list(ps)]))
         gi = rng.choice(["pp39", "ip27", "jy27", "graalpy240", "PP310", "x"])
         out.append(Case("generic", "t.generic", [gi, enc_list(abis), enc_list(ps)]))
-        # law cases stay inside the domain of the NoDup theorems' side conditions except for repeats
-        la = [a for a in abis if a == a.lower() and "-" not in a]
-        lp = [p for p in ps if p == p.lower()]
-        if lp:
-            out.append(Case("law-shape", "law.t.shape", [v, enc_list(la), enc_list(lp), interp.lower()], kind="law"))
+        # law cases: any case (Tag() lower-cases), repeats included; only '-' inside an ABI is excluded (the law splits tag text on '-')
+        la = [a for a in abis if "-" not in a]
+        out.append(Case("law-shape", "law.t.shape", [v, enc_list(la), enc_list(ps), interp], kind="law"))
+    # case variants: the same ABI / platform spelled in two cases, upper-case abi3 / none, upper-case free-threaded ABIs
+    for _ in range(400 if q else 8000):
+        v = rand_pv(rng); nd = "".join(v.split(".")[:2])
+        pool = ["cp" + nd, "CP" + nd, "cp%st" % nd, "CP%sT" % nd, "Cp%sT" % nd, "abi3", "ABI3", "Abi3", "none", "NONE", "None", "foo", "FOO", "cp%sm" % nd]
+        abis = rand_list(rng, pool, [1, 2, 2, 3, 4])
+        ps = rand_list(rng, ["p", "P", "linux_x86_64", "Linux_X86_64", "LINUX_X86_64", "any", "ANY", "Any", "q"], [1, 2, 3])
+        interp = rng.choice(["", "cp" + nd, "PY3", "Py" + nd, "py" + nd, "pp3", "PP3", "py" + v.split(".")[0] + "0"])
+        out.append(Case("case-variants", "t.cpython", [v, enc_list(abis), enc_list(ps), rand_cfg(rng)]))
+        out.append(Case("case-variants", "t.generic", [rng.choice(["pp39", "PP39"]), enc_list(abis), enc_list(ps)]))
+        out.append(Case("law-shape", "law.t.shape", [v, enc_list(abis), enc_list(ps), interp], kind="law"))
+    # the default arguments: python_version / abis / platforms / interpreter not given -> running interpreter and detected platforms
+    for _ in range(700 if q else 15000):
+        v = rand_pv(rng) if rng.random() < 0.6 else ""
+        sv = rng.choice(SYSVERS)
+        abis = rand_list(rng, abi_pool(rng, v or sv), [0, 1, 1, 2, 3])
+        ps = rand_list(rng, PLATS, [0, 0, 0, 1, 2])
+        det = rand_det(rng)
+        out.append(Case("cpython-defaults", "t.cpythond", [v, "?" if rng.random() < 0.5 else enc_list(abis), enc_list(ps), rand_cfg(rng), sv, det]))
+        interp = rng.choice(["", "", "cp" + "".join((v or sv).split(".")[:2]), "pp3", "py3"])
+        out.append(Case("compatible-defaults", "t.compatd", [v, interp, enc_list(ps), sv, det]))
+        gi = rng.choice(["", "", "", "pp39", "x"])
+        name = rng.choice(["cpython", "pypy", "ironpython", "jython", "python", "graalpy", "pyston"])
+        nodot = rng.choice(["N", "N", "S" + sv.replace(".", ""), "S", "S39", "I" + sv.replace(".", ""), "I0", "I27"])
+        out.append(Case("generic-defaults", "t.genericd", [gi, enc_list(abis), enc_list(ps), name, nodot, sv, det]))
     # repeated abi3 / none entries (list.remove drops only the first occurrence)
     for _ in range(200 if q else 5000):
         v = rand_pv(rng)
@@ -122,6 +167,21 @@ def streams(rng, tier):
         nodot = rng.choice(["N", "N", "S" + sv.replace(".", ""), "S", "S39", "S313"])
         plat = rng.choice(["freebsd-13.2-amd64", "win-amd64", "win32", "solaris-2.11-sun4v.64bit", "generic", "aix 7.2-ppc", "openbsd-7.4-amd64"])
         out.append(Case("sys-tags", "t.sys", [name, nodot, sv, rand_ext(rng), rand_cfg(rng), plat]))
+    # whole sys_tags() over a detected platform list with several entries (Darwin), and its laws on the real objects (Linux, Darwin)
+    for _ in range(150 if q else 4000):
+        name = rng.choice(["cpython", "cpython", "cpython", "pypy", "ironpython", "python", "graalpy", "pp"])
+        sv = rng.choice(SYSVERS)
+        nodot = rng.choice(["N", "N", "S" + sv.replace(".", ""), "S", "S39", "I" + sv.replace(".", ""), "I0"])
+        out.append(Case("sys-tags-platforms", "t.sysp", [name, nodot, sv, rand_ext(rng), rand_cfg(rng), rand_det(rng, mac_only=True)]))
+    for _ in range(120 if q else 3000):
+        name = rng.choice(["cpython", "cpython", "cpython", "pypy", "ironpython", "jython", "python", "graalpy", "pyston"])
+        sv = rng.choice(SYSVERS)
+        nodot = rng.choice(["N", "N", "S" + sv.replace(".", ""), "S", "S39"])
+        r = rng.random()
+        if r < 0.45: spec = "L%d.%d;%s" % (2, rng.choice([5, 12, 17, 18, 24, 28]), rng.choice(["x86_64", "aarch64", "armv8l", "s390x"]))
+        elif r < 0.9: spec = rand_det(rng, mac_only=True)
+        else: spec = rand_det(rng)
+        out.append(Case("law-sys", "law.t.sys", [name, nodot, sv, rand_ext(rng), rand_cfg(rng), spec], kind="law"))
     return out
 
 
